@@ -5,8 +5,9 @@ Channel `lazy` (property C16): the same op format and the same answers as channe
 One addition: a leading token `+std` marks a history that uses typed declarations
 `(func name [p:type …] [r:type …] body…)`. Neither the VM model nor the reference evaluator
 knows the `func` builder; for such a history every `func` form is rewritten to the `defn`
-it abbreviates (parameter names without their `:type`, no return list) before both sides
-run it. The check compares the implementation with the *reference* column only for these
+it abbreviates (parameter names without their `:type`, no return list), and every call of a
+declared function that names its arguments (`(f n: 2 #x: e)`) to the positional call, before
+both sides run it. The check compares the implementation with the *reference* column only for these
 ops (the model column is the model of the `defn`, not of `FuncBuilder`).
 -/
 import ZygoVerif.Driver.Eval
@@ -19,16 +20,50 @@ def stripType (s : String) : String :=
   | a :: _ :: _ => a
   | _ => s
 
+/-- declared typed functions: name ↦ parameter names in order -/
+abbrev Decls := List (String × List String)
+
 mutual
-partial def unfunc : Sx → Sx
+partial def collect : Sx → Decls
   | .list (.sym "func" :: .sym name :: .arr ps :: .arr _ :: body) =>
-    .list (.sym "defn" :: .sym name :: .arr (ps.map (fun p => match p with | .sym s => .sym (stripType s) | q => q)) :: unfuncL body)
-  | .list xs => .list (unfuncL xs)
-  | .arr xs => .arr (unfuncL xs)
-  | x => x
-partial def unfuncL : List Sx → List Sx
+    (name, ps.filterMap (fun p => match p with | .sym s => some (stripType s) | _ => none)) :: collectL body
+  | .list xs => collectL xs
+  | .arr xs => collectL xs
+  | _ => []
+partial def collectL : List Sx → Decls
   | [] => []
-  | x :: xs => unfunc x :: unfuncL xs
+  | x :: xs => collect x ++ collectL xs
+end
+
+/-- the value written after `p:` in a `name: value …` argument list -/
+def namedValue (p : String) : List Sx → Option Sx
+  | .sym s :: v :: rest => if s == p ++ ":" then some v else namedValue p rest
+  | _ => none
+
+/-- `(f n: 2 #x: e)` ↦ `(f e 2)` for a declared `f [#x n]`: a call that names all its
+arguments becomes the positional call (the harness writes the strict arguments in formal
+order, so the order of their effects is the same). -/
+def positional (ps : List String) (args : List Sx) : Option (List Sx) :=
+  match args with
+  | .sym s :: _ =>
+    if s.endsWith ":" && ps.contains ((s.dropEnd 1).toString) && args.length == 2 * ps.length then ps.mapM (fun p => namedValue p args)
+    else none
+  | _ => none
+
+mutual
+partial def unfunc (d : Decls) : Sx → Sx
+  | .list (.sym "func" :: .sym name :: .arr ps :: .arr _ :: body) =>
+    .list (.sym "defn" :: .sym name :: .arr (ps.map (fun p => match p with | .sym s => .sym (stripType s) | q => q)) :: unfuncL d body)
+  | .list (.sym f :: args) =>
+    match (d.lookup f).bind (fun ps => positional ps args) with
+    | some pos => .list (.sym f :: unfuncL d pos)
+    | none => .list (.sym f :: unfuncL d args)
+  | .list xs => .list (unfuncL d xs)
+  | .arr xs => .arr (unfuncL d xs)
+  | x => x
+partial def unfuncL (d : Decls) : List Sx → List Sx
+  | [] => []
+  | x :: xs => unfunc d x :: unfuncL d xs
 end
 
 mutual
@@ -43,14 +78,21 @@ partial def showSxL : List Sx → List String
   | x :: xs => showSx x :: showSxL xs
 end
 
-def rewriteText (t : String) : String :=
+def declsOf (t : String) : Decls :=
+  match readAll t with
+  | none => []
+  | some sxs => collectL sxs
+
+def rewriteText (d : Decls) (t : String) : String :=
   match readAll t with
   | none => t
-  | some sxs => if sxs.isEmpty then t else "~".intercalate (showSxL (unfuncL sxs))
+  | some sxs => if sxs.isEmpty then t else "~".intercalate (showSxL (unfuncL d sxs))
 
 def handle (toks : List String) : String :=
   match toks with
-  | "+std" :: rest => Eval.handle (rest.map rewriteText)
+  | "+std" :: rest =>
+    let d := (rest.map declsOf).flatten
+    Eval.handle (rest.map (rewriteText d))
   | _ => Eval.handle toks
 
 end ZygoVerif.Driver.Lazy
